@@ -443,7 +443,7 @@ MANIFEST = dict(
         "with the prefix-beam recursion is numerical and not decided."),
     level_note="Trusted: python ast, IEEE semantics of -inf*0, torch where/masked_fill. F12 (mass * mask) was found by "
                "G20 and repaired; F13 (-inf mass * probability under a saturated softmax) is a known finding.",
-    technique="static analysis: taint analysis for the -inf sentinel, index-space kind checking, reaching definitions, argument binding",
+    technique="static analysis: taint analysis for the -inf sentinel, index-space kind checking, reaching definitions, argument binding; truth table of the fill-up test over (padded length, frames processed, width)",
     design_ref="DESIGN.md section 4 C05, section 3 G20/G14",
 )
 
